@@ -155,8 +155,19 @@ fn behave(kind: &str, key: String, w: usize, wc: usize) -> impl Future<Output = 
 /// outlines are expanded the way `parser::Basic` does it (the real `expand_examples`)
 fn expanded(f: gherkin::Feature) -> gherkin::Feature {
     use cucumber::feature::Ext as _;
-    f.expand_examples().expect("outline expands")
+    let mut f = f.expand_examples().expect("outline expands");
+    if PREPEND_EMPTY_RULE.load(Ordering::SeqCst) && !f.rules.is_empty() {
+        // what `Cucumber::filter_run` leaves behind when a filter rejects every scenario of the first rule: the rule stays
+        let mut empty = f.rules[0].clone();
+        empty.name = "emptied".to_owned();
+        empty.scenarios.clear();
+        empty.tags.clear();
+        f.rules.insert(0, empty);
+    }
+    f
 }
+
+static PREPEND_EMPTY_RULE: std::sync::atomic::AtomicBool = std::sync::atomic::AtomicBool::new(false);
 
 fn step_fn(w: &mut Wd, ctx: Context) -> LocalBoxFuture<'_, ()> {
     let key = ctx.step.value.clone();
@@ -231,6 +242,7 @@ fn kv(l: &[String], k: &str) -> Option<String> {
 }
 
 pub fn run(lines: Vec<Vec<String>>, raw: String) {
+    PREPEND_EMPTY_RULE.store(lines.iter().any(|l| l[0] == "prepend_empty_rule"), Ordering::SeqCst);
     let wd_ms: u64 = lines.iter().find(|l| l[0] == "watchdog_ms").map_or(10_000, |l| l[1].parse().unwrap());
     let (tx, rx) = mpsc::channel::<Vec<String>>();
     thread::spawn(move || {
